@@ -189,8 +189,16 @@ SCENARIOS = {
 
 
 def run(name):
-    with det.patched():
-        SCENARIOS[name]()
+    import logging
+
+    lg = logging.getLogger("Rx")
+    lvl = lg.level
+    lg.setLevel(logging.ERROR)  # the trampoline warns "Do not schedule blocking work!" on timed waits
+    try:
+        with det.patched():
+            SCENARIOS[name]()
+    finally:
+        lg.setLevel(lvl)
 
 
 if __name__ == "__main__":
